@@ -239,6 +239,10 @@ func init() {
 			}
 			ax, ay = g.capFor(r, x), g.capFor(r, y)
 		}
+		if r.Intn(3) == 0 { // boundary family: |quotient| 2^j, 2^j +- 1, both signs, tight announcements
+			x, y = g.divBoundary(r, true, 600)
+			ax, ay = tightCap(r, x), tightCap(r, y)
+		}
 		return &tcase{args: []*big.Int{noNegZero(ax, x), zi(ax), noNegZero(ay, y), zi(ay)}, mode: r.Intn(2)}
 	}
 	divKey := func(name string) func(c *tcase) string {
